@@ -132,6 +132,7 @@ def rule_faults():
     f("deref-without-main-reg", append({"zz": [{"$deref": {"constant_offset": "0x8"}}]}))
     f("deref-field-empty-list", append({"zz": [{"$deref": {"main_reg": [], "constant_offset": "0x8"}}]}))
     f("deref-empty-body", append({"zz": [{"$deref": {}}]}))
+    f("deref-field-two-values", append({"zz": [{"$deref": {"main_reg": ["%rax", "%rbx"]}}]}))
     f("operand-list-item-null", append({"zz": [None]}))
     f("times-negative-int", lambda doc: _first_item_times(doc, -1, False))
     f("times-negative-int-sibling", lambda doc: _first_item_times(doc, -2, True))
